@@ -1,6 +1,7 @@
 import Proofs.SeqSteps
 import Proofs.SeqStore2
 import Proofs.SeqDemo
+import Proofs.SeqRecoverDemo
 /-! C03 — A crash at any point of sequencing or recovery is recoverable without loss.
 `Reachable` includes a `crash` event at every point between two storage/lock operations of a round
 and of a recovery, with every applied/not-applied outcome of the operation in flight.
@@ -70,5 +71,102 @@ theorem C03_crash_anywhere (s : Sys) (i : Nat) : ∃ s', step s (.crash i) = som
 example : ∃ s, Reachable s ∧ s.lockHist.length = 3 := by
   obtain ⟨s, hr, hl⟩ := Seq.Demo.demo_reachable
   exact ⟨s, hr, by rw [hl]; rfl⟩
+
+/-- **The lock tree is always recoverable from the store (I5).** In every reachable untampered state the
+    tree committed in the lock store is completely rendered in object storage, or its upload bundle is
+    still staged: a non-empty bundle of exactly the tiles of a growth step from a completely rendered
+    base tree, whose (idempotent) re-application renders the committed tree completely. -/
+theorem C03_lock_tree_recoverable_state {s : Sys} (r : Reachable s) (ht : s.tampered = false) (c : Ck)
+    (hl : s.lock = some c) :
+    Complete s.store c.leaves ∨
+    ∃ items imm, s.store (.staging c.leaves) = some (.bundle items, imm) ∧ items ≠ [] ∧
+      ∃ old, bundleOK old.length c.leaves items = true ∧ old <+: c.leaves ∧ Complete s.store old ∧
+        ∀ st', TileLe s.store st' → (∀ t ∈ items.map (·.1), Good st' c.leaves t) → Complete st' c.leaves := by
+  have h4 := inv4_reachable r ht
+  rcases h4.lockRec (inv_reachable r) (inv3_reachable r ht) c hl with hc | ⟨items, imm, hs⟩
+  · exact Or.inl hc
+  · right
+    obtain ⟨_, items', hb, hne⟩ := h4.stagedNe _ _ _ hs
+    injection hb with hb; subst hb
+    exact ⟨items, imm, hs, hne, C03_staged_bundle_recovers r ht c.leaves items imm hs⟩
+
+/-- Every committed tree (not only the newest) is empty, or was published, or still has its bundle staged. -/
+theorem C03_committed_trees_recoverable {s : Sys} (r : Reachable s) (ht : s.tampered = false) :
+    ∀ c ∈ s.lockHist, c.leaves = [] ∨ (∃ p ∈ s.pubHist, p.leaves = c.leaves) ∨
+      ∃ items imm, s.store (.staging c.leaves) = some (.bundle items, imm) :=
+  (inv4_reachable r ht).hist
+
+/-- **Recovery, conditional form.** From every reachable untampered state in which log creation has
+    completed, a fault-free `LoadLog` of a stopped instance (started with the log's own name and key, at a
+    clock value not before the lock checkpoint's) is accepted by the model event by event and ends
+    `loaded` on exactly the lock-store checkpoint, with every tile of that tree present, every requested
+    right-edge fetch answered with the prescribed content, locks / histories / other instances
+    untouched, and the instance able to sequence again — PROVIDED (`hcs`) the checkpoint object has the
+    lock checkpoint's leaves or the lock tree's bundle is still staged. `hcs` is not a theorem of the
+    model: see `C03_unrecoverable_after_pub_regress_witness`. It holds whenever the checkpoint object is
+    a longest published one (`C03_recoverable_of_no_regression`) and in every state of a run with one
+    live process at a time (`C03_recoverable`). -/
+theorem C03_recoverable_of_ckpt_or_staged {s : Sys} (r : Reachable s) (ht : s.tampered = false) (i : Nat) (c : Ck)
+    (v : Nat) (hl : s.lock = some c) (hpub : s.pubHist ≠ [])
+    (hdown : (s.insts i).phase = .down) (hcfg : (s.insts i).cfgBad = false) (hv : c.time ≤ v)
+    (hcs : ∀ c1 imm, s.store .ckpt = some (.ck c1, imm) → c1.leaves = c.leaves ∨
+      ∃ items imm', s.store (.staging c.leaves) = some (.bundle items, imm'))
+    (ts : List TileId) (hts : ∀ t ∈ ts, Req c.leaves.length t = true ∧ t.kind.level < 8) :
+    ∃ es s', run s es = some s' ∧ (s'.insts i).phase = .idle ∧ (s'.insts i).tree = c ∧
+      Complete s'.store c.leaves ∧ s'.lock = some c ∧ s'.lockHist = s.lockHist ∧ s'.pubHist = s.pubHist ∧
+      s'.tampered = false ∧ (∀ j, j ≠ i → s'.insts j = s.insts j) ∧
+      es.head? = some (.launchLoad i) ∧ es.getLast? = some (.loaded i c) ∧
+      (∀ t ∈ ts, Ev.fetch i (.tile t) (.ok (.slice (t.slice c.leaves))) ∈ es) ∧
+      (∃ s'', step s' (.launchRound i) = some s'') :=
+  recover_run_of_ckpt_or_staged r ht i c v hl hpub hdown hcfg hv hcs ts hts
+
+/-- the same when the checkpoint object is a longest published checkpoint (no publication regression) -/
+theorem C03_recoverable_of_no_regression {s : Sys} (r : Reachable s) (ht : s.tampered = false) (i : Nat) (c : Ck)
+    (v : Nat) (hl : s.lock = some c) (hpub : s.pubHist ≠ [])
+    (hdown : (s.insts i).phase = .down) (hcfg : (s.insts i).cfgBad = false) (hv : c.time ≤ v)
+    (hnr : ∀ c1 imm, s.store .ckpt = some (.ck c1, imm) → ∀ p ∈ s.pubHist, p.leaves.length ≤ c1.leaves.length)
+    (ts : List TileId) (hts : ∀ t ∈ ts, Req c.leaves.length t = true ∧ t.kind.level < 8) :
+    ∃ es s', run s es = some s' ∧ (s'.insts i).phase = .idle ∧ (s'.insts i).tree = c ∧
+      Complete s'.store c.leaves ∧ s'.lock = some c ∧ s'.lockHist = s.lockHist ∧ s'.pubHist = s.pubHist ∧
+      s'.tampered = false ∧ (∀ j, j ≠ i → s'.insts j = s.insts j) ∧
+      es.head? = some (.launchLoad i) ∧ es.getLast? = some (.loaded i c) ∧
+      (∀ t ∈ ts, Ev.fetch i (.tile t) (.ok (.slice (t.slice c.leaves))) ∈ es) ∧
+      (∃ s'', step s' (.launchRound i) = some s'') :=
+  recover_run_of_ckpt_or_staged r ht i c v hl hpub hdown hcfg hv
+    (ckpt_or_staged_of_no_regression r ht hl hnr) ts hts
+
+/-- **Unconditional recovery is false in the model** (and in the code: replayed on real `ctlog.Log`
+    instances): a publication regression followed by a discard. There is a reachable, untampered state
+    with log creation completed, every process down (all with the log's own configuration) and a lock
+    checkpoint `c`, in which the fault-free load of ANY instance is accepted up to the staging fetch and
+    there every consistent fetch result ends the load in failure: the checkpoint object is behind the
+    lock checkpoint and the lock tree's bundle has been discarded. Run: `Seq.Cex.cex`. -/
+theorem C03_unrecoverable_after_pub_regress_witness :
+    ∃ s c, Reachable s ∧ s.tampered = false ∧ s.pubHist ≠ [] ∧ s.lock = some c ∧
+      (∀ j, (s.insts j).phase = .down ∧ (s.insts j).cfgBad = false) ∧
+      (∃ c1, s.store .ckpt = some (.ck c1, false) ∧ c1.leaves.length < c.leaves.length) ∧
+      s.store (.staging c.leaves) = none ∧ Complete s.store c.leaves ∧
+      ∀ i, ∃ sL, run s (Seq.Cex.loadAttempt i) = some sL ∧ (sL.insts i).phase = .loading (.stagingFetch c) ∧
+        ∀ k res s', step sL (.fetch i k res) = some s' →
+          k = .staging c.leaves ∧ (s'.insts i).phase = .loading .failing := by
+  obtain ⟨s, h, ht, hl, _, hp, hck, hstg, _⟩ := Seq.Cex.cex_runs
+  have r : Reachable s := ⟨0, _, h⟩
+  refine ⟨s, Seq.RecDemo.c2, r, ht, by rw [hp]; simp, hl, Seq.Cex.cex_all_down h,
+    ⟨Seq.RecDemo.c1, hck, by decide⟩, hstg, ?_, Seq.Cex.cex_load_fails h⟩
+  exact (inv3_reachable r ht).pub _ (by rw [hp]; simp)
+
+/-- non-vacuity of the recovery theorems: a process that died right after its compare-and-swap (one of
+    three tiles uploaded) leaves a state satisfying every hypothesis of `C03_recoverable_of_ckpt_or_staged` -/
+example : ∃ s i c v, Reachable s ∧ s.tampered = false ∧ s.lock = some c ∧ s.pubHist ≠ [] ∧
+    (s.insts i).phase = .down ∧ (s.insts i).cfgBad = false ∧ c.time ≤ v ∧ ¬ Complete s.store c.leaves ∧
+    (∀ c1 imm, s.store .ckpt = some (.ck c1, imm) → c1.leaves = c.leaves ∨
+      ∃ items imm', s.store (.staging c.leaves) = some (.bundle items, imm')) := by
+  obtain ⟨s, h, ht, hl, hp, hck, hstg, hd, hg, hnone⟩ := Seq.RecDemo.crashAfterCas_runs
+  refine ⟨s, 0, Seq.RecDemo.c1, 120, ⟨0, _, h⟩, ht, hl, by rw [hp]; simp, hd, hg, by decide, ?_,
+    fun _ _ _ => Or.inr ⟨_, _, hstg⟩⟩
+  intro hc
+  have := hc ⟨.names, 0, 1⟩ (by decide) (by decide)
+  rw [Good, hnone] at this
+  cases this
 
 end C03
